@@ -2,8 +2,13 @@ PROP = dict(
     id="C17",
     engines=["c17", "c17r"],
     go_tags=["c17"],
+    extract_files={"MM/Gen/LockC16.lean": {"cmd": ["go", "run", "{VERIF}/tools/lockshape.go", "LockC16",
+        "{REPO}/internal/agent/relay_table.go",
+        "relayTable.Insert,relayTable.Delete,relayTable.LookupBoth,relayTable.LookupDownstream,relayTable.PopDownstreamFromPeer,relayTable.PopMatchingPeer,relayTable.DeleteByPeer",
+        "mu", "byUpstream,byDownstream"]}},
     lean_modules=["MM.Props.C17"],
     theorems=[
+        "MM.C16.C16_lock_table_methods_atomic",
         "MM.C17.C17_disconnect_clean",
         "MM.C17.C17_no_orphans",
         "MM.C17.C17_agent_disconnect_clean",
